@@ -42,7 +42,10 @@ report["base_commit"] = base if base != "HEAD" else subprocess.run(["git", "-C",
 subprocess.check_call(["git", "-C", "/repo", "worktree", "add", "-q", "--detach", wt, base])
 try:
     env = dict(os.environ, PYTHONPATH=wt, PYTHONDONTWRITEBYTECODE="1")
-    shutil.copy(demo, os.path.join(tmp, "demo.py"))
+    import re
+    # demos written in an agent's worktree may assert that the library was imported from that worktree
+    demo_src = re.sub(r'"/tmp/s[ab]_C\d\d"', '"/"', open(demo).read())
+    open(os.path.join(tmp, "demo.py"), "w").write(demo_src)
 
     def run_demo():
         r = subprocess.run(["/venv/bin/python", os.path.join(tmp, "demo.py")], cwd=wt, env=env, capture_output=True, text=True, timeout=600)
@@ -74,7 +77,7 @@ try:
         d = os.path.join("/verif/seeded", keep)
         os.makedirs(d, exist_ok=True)
         shutil.copy(patch, os.path.join(d, "patch.diff"))
-        shutil.copy(demo, os.path.join(d, "demo.py"))
+        open(os.path.join(d, "demo.py"), "w").write(demo_src)
         meta = {"breaks_property": prop, "origin": "independent sub-agent given only the property text and a scratch worktree",
                 "needs_to_manifest": open(notes).read() if os.path.exists(notes) else "",
                 "what_was_run": {"pinned test suite with the change": report["tests"], "demo on unchanged tree (exit)": rc0,
